@@ -15,6 +15,7 @@
     (`gena_align_interface_principal_axis`).
 -/
 import PdbVerif.Proofs.GenAlignSpec
+import PdbVerif.Props.C11
 
 set_option linter.unusedSectionVars false
 set_option linter.unusedVariables false
@@ -387,5 +388,109 @@ theorem gena_align_interface_principal_axis {σ : Type} {cos sin : Rat → Rat} 
   refine ⟨sql, out, ho, hc, ?_⟩
   rw [hs, getXYZ_moveSelected _ (fun _ _ _ _ _ => rfl)]
   exact ⟨hL, lam, hE⟩
+
+/-! ### the contact atoms are those of the RESULT table (contacts are invariant under the rigid motion applied: C11) -/
+
+/-- what `Model.alignPcaVect` returns is the image of the table under ONE rigid motion (`Spec.Inv.move`, the vocabulary of C11) -/
+theorem alignPcaVect_rigid (cp sp ct st : ℚ) (hp : cp * cp + sp * sp = 1) (hθ : ct * ct + st * st = 1) (axis : String)
+    (db t : List Atom) (h : alignPcaVect cp sp ct st axis db = .ok t) :
+    ∃ g : Spec.Rmsd.Motion Rat, g.IsRigid ∧ t = Spec.Inv.move g db := by
+  obtain ⟨mats, hm, rfl⟩ := alignPcaVect_ok cp sp ct st axis db t h
+  have hR := (Props.C18.align_mats_rotations cp sp ct st hp hθ axis mats hm).2
+  refine ⟨⟨composeMats mats, Vec3.sub (mean (getXYZ selAll db)) ((composeMats mats).mulVec (mean (getXYZ selAll db)))⟩, hR, ?_⟩
+  rw [moveSelected_all]
+  unfold Spec.Inv.move
+  apply List.map_congr_left
+  intro a _
+  simp only [Spec.Inv.moveAtom, Spec.Rmsd.Motion.apply, Spec.Rmsd.pos, xyzOf]
+  congr 1 <;> simp only [Vec3.add, Vec3.sub, mulVec] <;> ring
+
+/-- `get_contact_atoms` returns the same rows for a table and for its image under a rigid motion (C11 `isometry_invariant_contacts`) -/
+theorem contactAtoms_move {g : Spec.Rmsd.Motion Rat} (hg : g.IsRigid) (t : List Atom) (a : ContactArgs) :
+    Model.contactAtoms (Spec.Inv.move g t) a = Model.contactAtoms t a := by
+  unfold Model.contactAtoms
+  rw [(Props.C11.isometry_invariant_contacts hg t a [] [] 0).1]
+
+/-- **the least-variance direction of the contact atoms OF THE RESULT TABLE is normal to the plane, for the generated
+    `align_interface`**: whenever the translated call returns, `get_contact_atoms` (the model the generated call uses, same
+    keyword arguments) run on the RESULT table returns some `out'`, and the normal `e` of the requested plane carries the LEAST
+    variance of those atoms and is an eigen-direction of their scatter matrix. -/
+theorem gena_align_interface_principal_axis_result {σ : Type} {cos sin : Rat → Rat} {pi : Rat}
+    (ord : List (Py.Str × Py.Str × Int) → List (Py.Str × Py.Str × Int)) (hord : Proofs.GenContacts.SetOrderOK ord)
+    (cast : σ → Option Rt.Db) (ctor : σ → Except Err Rt.Db) (cov : Np.PointsT Rat → Except Err (Mat3 Rat))
+    (eigh : Mat3 Rat → Except Err (Vec3 Rat × Mat3 Rat)) (norm : Vec3 Rat → Rat) (arctan2 : Rat → Rat → Rat) (arccos : Rat → Rat)
+    (hcov : CovContract cov) (heigh : EighContract eigh)
+    (h : ∀ v, TrigAt cos sin pi (phiOf arctan2 v) (thetaOf norm arccos v))
+    (ppi : σ) (plane : String) (export_ : Bool) (kw : Rt.ContactKw)
+    (hang : ∀ sql out v, openDb cast ctor ppi = .ok sql → Model.contactAtoms sql.atoms (kwArgs kw) = .ok out →
+      GenA.get_min_pca_vect cov eigh (getXYZ (fun i _ => decide (i ∈ rowIds out)) sql.atoms) = .ok v →
+      AnglesAt norm arctan2 arccos cos sin v)
+    (sql' : Rt.Db) (files : List Rt.FileEffect)
+    (hr : GenA.align_interface cast ctor ord cov eigh norm arctan2 arccos cos sin pi ppi plane export_ kw = .ok (sql', files))
+    (e : Vec3 Rat) (he : planeNormal plane = some e) :
+    ∃ out', Model.contactAtoms sql'.atoms (kwArgs kw) = .ok out' ∧
+      LeastVarianceAlong (getXYZ (fun i _ => decide (i ∈ rowIds out')) sql'.atoms) e ∧
+      ∃ lam, (scatter (getXYZ (fun i _ => decide (i ∈ rowIds out')) sql'.atoms)).mulVec e = Vec3.smul lam e := by
+  obtain ⟨sql, out, v, axis, t, ho, hc, hv, hp, ht, hs⟩ :=
+    gena_align_interface_ok_inv ord hord cast ctor cov eigh norm arctan2 arccos h ppi plane export_ kw sql' files hr
+  obtain ⟨sql₂, out₂, ho₂, hc₂, hL, hE⟩ := gena_align_interface_principal_axis ord hord cast ctor cov eigh norm arctan2 arccos hcov heigh h
+    ppi plane export_ kw hang sql' files hr e he
+  rw [ho] at ho₂
+  cases ho₂
+  rw [hc] at hc₂
+  cases hc₂
+  obtain ⟨_, hsph⟩ := hang sql out v ho hc hv
+  obtain ⟨g, hg, hmove⟩ := alignPcaVect_rigid _ _ _ _ hsph.phi_unit hsph.theta_unit axis sql.atoms t ht
+  refine ⟨out, ?_, hL, hE⟩
+  rw [hs, hmove, contactAtoms_move hg]
+  exact hc
+
+/-! ### `align`: a selection by keywords that do not name x, y or z does not look at coordinates -/
+
+/-- the C03 conditions `q` (what the keywords of `get` denote, Spec/C03.lean) name none of the columns x, y, z -/
+def NoXYZ (q : List Spec.Cond) : Prop :=
+  ∀ c ∈ q, c.col ≠ .std .x ∧ c.col ≠ .std .y ∧ c.col ≠ .std .z
+
+theorem cell_blind (c : _root_.Tbl.Col) (hc : c ≠ .std .x ∧ c ≠ .std .y ∧ c ≠ .std .z) (i : Nat) (a : Atom) (x y z : Rat) :
+    _root_.Tbl.cell c i { atom := { a with x := x, y := y, z := z } } = _root_.Tbl.cell c i { atom := a } := by
+  cases c with
+  | rowID => rfl
+  | extra k => rfl
+  | std s =>
+    cases s <;> first | rfl | exact absurd rfl hc.1 | exact absurd rfl hc.2.1 | exact absurd rfl hc.2.2
+
+/-- a row condition that agrees with keyword conditions naming none of x, y, z (the hypothesis of
+    `Proofs.GenContacts.select_eq_spec`) is blind to coordinates -/
+theorem coordBlind_of_keywords (q : List Spec.Cond) (hq : NoXYZ q) (cond : Py.Tbl.IRow → Bool)
+    (hcond : ∀ a i, cond (a, i) = Spec.sat [] q ({ atom := a }, i)) : CoordBlind (selOf cond) := by
+  intro i a x y z
+  simp only [selOf, hcond, Spec.sat]
+  have hc : ∀ c ∈ q, Spec.Cond.holds [] c i { atom := { a with x := x, y := y, z := z } } = Spec.Cond.holds [] c i { atom := a } :=
+    fun c hc => by simp only [Spec.Cond.holds, cell_blind c.col (hq c hc) i a x y z]
+  clear hq hcond
+  induction q with
+  | nil => rfl
+  | cons c q ih =>
+    simp only [List.all_cons]
+    rw [hc c (List.mem_cons_self ..), ih (fun c' h' => hc c' (List.mem_cons_of_mem _ h'))]
+
+/-- **the principal axis is aligned, for the generated `align`, selection given by keywords**: as `gena_align_principal_axis`, for
+    a `**kwargs` that denotes keyword conditions `q` (C03) none of which names x, y or z -/
+theorem gena_align_principal_axis_keywords {σ : Type} {cos sin : Rat → Rat} {pi : Rat}
+    (cast : σ → Option Rt.Db) (ctor : σ → Except Err Rt.Db) (cov : Np.PointsT Rat → Except Err (Mat3 Rat))
+    (eigh : Mat3 Rat → Except Err (Vec3 Rat × Mat3 Rat)) (norm : Vec3 Rat → Rat) (arctan2 : Rat → Rat → Rat) (arccos : Rat → Rat)
+    (hcov : CovContract cov) (heigh : EighContract eigh)
+    (h : ∀ v, TrigAt cos sin pi (phiOf arctan2 v) (thetaOf norm arccos v))
+    (pdb : σ) (axis : String) (export_ : Bool) (kwargs : Tbl.IRow → Bool)
+    (q : List Spec.Cond) (hq : NoXYZ q) (hkw : ∀ a i, kwargs (a, i) = Spec.sat [] q ({ atom := a }, i))
+    (hang : ∀ sql v, openDb cast ctor pdb = .ok sql → GenA.get_max_pca_vect cov eigh (getXYZ (selOf kwargs) sql.atoms) = .ok v →
+      AnglesAt norm arctan2 arccos cos sin v)
+    (sql' : Rt.Db) (files : List Rt.FileEffect)
+    (hr : GenA.align cast ctor cov eigh norm arctan2 arccos cos sin pi pdb axis export_ kwargs = .ok (sql', files))
+    (e : Vec3 Rat) (he : axisVec axis = some e) :
+    LargestVarianceAlong (getXYZ (selOf kwargs) sql'.atoms) e ∧
+      ∃ lam, (scatter (getXYZ (selOf kwargs) sql'.atoms)).mulVec e = Vec3.smul lam e :=
+  gena_align_principal_axis cast ctor cov eigh norm arctan2 arccos hcov heigh h pdb axis export_ kwargs
+    (coordBlind_of_keywords q hq kwargs hkw) hang sql' files hr e he
 
 end Proofs.GenAlign
